@@ -133,10 +133,36 @@ Proof.
   apply rej_alt_cons; [apply rej_map, rej_tag_nc_mismatch, H5|]. apply rej_alt_nil.
 Qed.
 
+Lemma nocase_plain K k : forallb (fun a => forallb rfc_QUOTED_PLAIN (variants a)) K = true -> same_nocase K k = true ->
+  forallb rfc_QUOTED_PLAIN k = true.
+Proof.
+  revert k; induction K as [|a K IH]; intros [|b k] HK H; try discriminate; [reflexivity|].
+  cbn [forallb] in HK. apply andb_true_iff in HK. destruct HK as [Ha HK].
+  cbn [same_nocase] in H. apply andb_true_iff in H. destruct H as [Hab H]. cbn [forallb]. rewrite (IH k HK H), andb_true_r.
+  rewrite forallb_forall in Ha. exact (Ha b (lower_variants a b Hab)).
+Qed.
+
+Lemma known_enc_plain K n k : In (K, n) known_encodings -> kw K k -> forallb rfc_QUOTED_PLAIN k = true.
+Proof.
+  intros Hin Hk. unfold kw in Hk. apply (nocase_plain (bs K) k); [|exact Hk].
+  unfold known_encodings in Hin. cbn [In] in Hin.
+  destruct Hin as [E | [E | [E | [E | [E | []]]]]]; injection E as <- _; vm_compute; reflexivity.
+Qed.
+
+Lemma quoted_body_app a b : quoted_body a -> quoted_body b -> quoted_body (a ++ b).
+Proof. intros Ha Hb. induction Ha as [| c s Hc Hs IH | c s Hc Hs IH]; cbn [app]; [exact Hb | apply qb_plain; assumption | apply qb_escaped; assumption]. Qed.
+
+Lemma quoted_body_head_not_quote t : quoted_body t -> t <> [] -> exists c r, t = c :: r /\ (34 =? c) = false.
+Proof.
+  intros H Hne. destruct H as [| c s Hc Hs | c s Hc Hs]; [contradiction | |].
+  - exists c, s. split; [reflexivity|]. destruct (N.eqb_spec 34 c) as [<-|]; [discriminate Hc | reflexivity].
+  - eexists _, _. split; reflexivity.
+Qed.
+
 Lemma ok_body_enc e w d : enc_body_enc e w -> OK (Ref f_body_structure_x_body_encoding DSame) d w e any.
 Proof.
   intro H. apply (okref _ _ _ _ _ _ _ env_body_encoding). unfold def_body_structure_x_body_encoding. fold enc_alts.
-  destruct H as [K n k Hin Hk | s Hs Hu Hm | s w0 Hl Hu].
+  destruct H as [K n k Hin Hk | s Hs Hu Hm | K n k t Hin Hk Hne Ht Hu | s w0 Hl Hu].
   - apply ok_alt_here. eapply ok_map.
     { apply ok_seq. regroup ([34] ++ (k ++ ([34] ++ []))).
       eapply (okseq_cons _ _ _ _ _ _ _ _ _ _ any any); [apply ok_tag | | intros; exact I].
@@ -149,6 +175,17 @@ Proof.
       rewrite app_assoc. apply rej_enc_alts, Hm. }
     apply ok_alt_here. eapply ok_map.
     { apply ok_string_utf8; [apply enc_string_q, enc_quoted_intro; exact Hs | exact Hu]. }
+    reflexivity.
+  - (* a longer name starting with a known one: the known name is read, then the closing quote is missing *)
+    destruct (quoted_body_head_not_quote t Ht Hne) as (c & r & -> & Hc).
+    apply ok_alt_skip.
+    { intros rest _. apply rej_map. rewrite <- !app_assoc.
+      eapply (rej_seq_after _ _ _ _ _ _ _ _ any); [apply ok_tag | exact I |].
+      eapply (rejseq_after _ _ _ _ _ _ _ _ any); [apply (ok_known_enc K n k d Hin Hk) | exact I |].
+      apply rejseq_head. cbn [app]. apply rej_tag. exact Hc. }
+    apply ok_alt_here. eapply ok_map.
+    { apply ok_string_utf8; [|exact Hu]. apply enc_string_q. constructor.
+      apply quoted_body_app; [apply plain_body, (known_enc_plain K n k Hin Hk) | exact Ht]. }
     reflexivity.
   - apply ok_alt_skip.
     { intros rest _. destruct Hl as [s' ds]. cbn [app]. apply rej_map, rej_seq_head, rej_tag. reflexivity. }
